@@ -2,7 +2,7 @@ CONSTANT Mode = "cols"
 CONSTANT MaxSteps = 2
 CONSTANT MaxZero = 1
 CONSTANT RowCounts = {2, 3, 4}
-CONSTANT PadCounts = {8192, 16384}
+CONSTANT PadCounts = {8191, 16384}
 CONSTANT NGen = 3
 SPECIFICATION Spec
 INVARIANT TypeOK
@@ -10,5 +10,7 @@ INVARIANT Consistent
 INVARIANT GramInvariant
 INVARIANT LawC08
 INVARIANT PadLaw
+INVARIANT WideLaw
+INVARIANT HistLaw
 INVARIANT Export
 CHECK_DEADLOCK FALSE
